@@ -4,8 +4,8 @@ true near matches.
 MIR symbolic execution of the real `MutableDictionary` (`new`, `append_word`, `contains_word`, `contains_exact_word`,
 `get_word_metadata`, `get_correct_capitalization_of`, the `_str` variants, `words_iter`, `fuzzy_match`), `WordMap`,
 `WordId::from_word_chars`, `CharStringExt::{normalized, to_lower}`, `edit_distance_min_alloc`, the delegating
-`FstDictionary` methods and `MergedDictionary`'s `impl Dictionary`, on dictionaries whose words are fully symbolic ASCII
-letters (both cases) and a fully symbolic query.
+`FstDictionary` methods and `MergedDictionary`'s `impl Dictionary`, on dictionaries whose words are fully symbolic letters
+(ASCII and Latin-1, both cases) and a fully symbolic query.
 
 The hash behind `WordId` (`foldhash::fast::FixedState::hash_one`) is modelled as an injective function of the hashed
 characters (ids are equal iff the lower-cased words are equal: no collisions); hashbrown's map is an association list
@@ -46,11 +46,25 @@ from anyval import AnyBuilder, load_structs
 
 
 def is_letter(c):
-    return z3.Or(z3.And(z3.UGE(c, 65), z3.ULE(c, 90)), z3.And(z3.UGE(c, 97), z3.ULE(c, 122)))
+    """ASCII letters and the Latin-1 letters whose case mappings are 1:1 inside Latin-1 (models.latin1_exact)"""
+    return z3.Or(z3.And(z3.UGE(c, 65), z3.ULE(c, 90)), z3.And(z3.UGE(c, 97), z3.ULE(c, 122)),
+                 z3.And(z3.UGE(c, 0xC0), z3.ULE(c, 0xFE), c != 0xD7, c != 0xDF, c != 0xF7))
+
+
+def is_upper(c):
+    return z3.Or(z3.And(z3.UGE(c, 65), z3.ULE(c, 90)), z3.And(z3.UGE(c, 0xC0), z3.ULE(c, 0xDE), c != 0xD7))
+
+
+def is_lower(c):
+    return z3.And(is_letter(c), z3.Not(is_upper(c)))
 
 
 def lower(c):
-    return z3.If(z3.And(z3.UGE(c, 65), z3.ULE(c, 90)), c + 32, c)
+    return z3.If(is_upper(c), c + 32, c)
+
+
+def upper(c):
+    return z3.If(is_lower(c), c - 32, c)
 
 
 def seq_eq(xs, ys):
@@ -114,11 +128,11 @@ def run(mir_path, scenario, src_dir):
         def hash_one(it_, callee, args):
             # injective in the hashed characters: the id *is* the sequence (packed 7 bits per ASCII letter + the length)
             cs = chars_of(args[1])
-            if len(cs) > 8:
-                raise Unsupported("hash_one of a word longer than 8 chars")
+            if len(cs) > 7:
+                raise Unsupported("hash_one of a word longer than 7 chars")
             t = z3.BitVecVal(len(cs), 64)
             for c in cs:
-                t = (t << 7) | z3.ZeroExt(32, c & 0x7F)
+                t = (t << 8) | z3.ZeroExt(32, c & 0xFF)
             return Int(t, 64, False)
 
         class SymHasher:
@@ -128,11 +142,11 @@ def run(mir_path, scenario, src_dir):
                 self.rec = []
 
         def pack(terms):
-            if len(terms) > 8:
-                raise Unsupported("more than 8 chars written to a hasher")
+            if len(terms) > 7:
+                raise Unsupported("more than 7 chars written to a hasher")
             t = z3.BitVecVal(len(terms), 64)
             for c in terms:
-                t = (t << 7) | z3.ZeroExt(32, c & 0x7F)
+                t = (t << 8) | z3.ZeroExt(32, c & 0xFF)
             return Int(t, 64, False)
 
         def build_hasher(it_, callee, args):
@@ -351,7 +365,7 @@ def run(mir_path, scenario, src_dir):
                 it.resolve_map[r"as IntoStreamer<'_>>::into_stream$"] = lambda it_, c_, a: a[0]
                 it.resolve_map[r"^(fst_dictionary::)?stream_distances_vec$"] = stream_distances
                 ds = [(lev(q, w), lev(low(q), w)) for w in wds]
-                q_is_lower = z3.And(*[z3.UGE(c, 97) for c in q]) if q else z3.BoolVal(True)
+                q_is_lower = z3.And(*[is_lower(c) for c in q]) if q else z3.BoolVal(True)
                 out = call(FS, "fuzzy_match", cf, q_slice(q), Int(D, 8), Int(R, 64))
                 res = [c.v for c in out.elems]
                 ty = FS
@@ -396,7 +410,7 @@ def run(mir_path, scenario, src_dir):
                 for w in wds:
                     d, dl = lev(q, w), lev(low(q), w)
                     ms.append(z3.If(z3.ULT(d, dl), d, dl))
-                q_is_lower = z3.And(*[z3.UGE(c, 97) for c in q]) if q else z3.BoolVal(True)
+                q_is_lower = z3.And(*[is_lower(c) for c in q]) if q else z3.BoolVal(True)
                 for ty, cell in backends:
                     out = call(ty, "fuzzy_match", cell, q_slice(q), Int(D, 8), Int(R, 64))
                     res = [c.v for c in out.elems]
